@@ -31,7 +31,7 @@ def main():
     cdir, harness, model = st
     lines = []; meta = []
     SEG = ['a', 'b', 'c', '%61', 'x:y', '', '.', '..', 'é', '%FF', '%C3%A9']
-    n = 20000 if thorough else 4000
+    n = 100000 if thorough else 4000
     for fam in ('uri', 'iri'):
         g = Gen(random.Random(rnd.random()), fam)
         S = [s for s in SEG if fam == 'iri' or all(ord(c) < 128 for c in s)]
